@@ -297,3 +297,61 @@ QUERIES = [
     {"name": "Q20p", "fn": q20p, "shards": [{"bf": 0}, {"bf": 1}, {"bf": 2}], "timeout": 900, "bound": "every combination of flag / config / default for backend (3x3), verbosity (3x4 incl. an invalid configured level), colour (3x3x NO_COLOR)"},
     {"name": "Q20r", "fn": q20r, "shards": [{}], "timeout": 900, "bound": "slurm and local backends; log_mode (4), accounting switch (3), host/port (3), one foreign key from 5"},
 ]
+
+
+# ---------------------------------------------------------------- Q20q  flags of one invocation never end up in the project configuration
+def _q20q(bf, vf_, cf, op, ki, pre_b):
+    """cli.main with any combination of -b / -v / --no-color flags builds the Context; then the real
+    `config set` / `config unset` body runs on that Context.  The file must change in that key only."""
+    if "bf" in q.SHARD and bf != q.SHARD["bf"]:
+        return q.SKIP
+    if not (q.in_range(bf, 3) and q.in_range(vf_, 3) and q.in_range(cf, 3) and q.in_range(op, 2) and q.in_range(ki, 3) and q.in_range(pre_b, 3)):
+        return q.SKIP
+    user = {"user.key": "keep"}
+    pb = q.pick([None, "slurm", "lsf"], pre_b)
+    if pb is not None:
+        user["backend"] = pb
+    w = vfs.VFS()
+    w.add(ROOT + "/workflow.py", 1, "#")
+    w.add(CONF, 1, json.dumps(user))
+    vfs.install(w)
+    real = (os.getcwd, cli_mod.configure_logging, cli_mod.guess_backend, click._compat.isatty)
+    try:
+        os.getcwd = lambda: ROOT
+        cli_mod.configure_logging = lambda level_name, handler=None: "H"
+        cli_mod.guess_backend = lambda: (0, "local")
+        ctx = types.SimpleNamespace(obj=None)
+        fn = cli_mod.main.callback
+        fn = getattr(fn, "__wrapped__", fn)
+        fn(ctx, "workflow.py:gwf", q.pick([None, "sge", "local"], bf), q.pick([None, "debug", "error"], vf_), q.pick([None, True, False], cf))
+        from gwf.plugins import config as config_mod
+        from vf.world.cmds import raw
+        k = q.pick(["other.key", "verbose", "backend.slurm.log_mode"], ki)
+        model = dict(user)
+        if op == 0:
+            raw(config_mod.set)(ctx.obj, k, "v1")
+            model[k] = "v1"
+        else:
+            raw(config_mod.unset)(ctx.obj, k)
+            model.pop(k, None)
+        after = json.loads(w.files[CONF][1])
+        if after != model:
+            return "flags (backend %s, verbose %s, colour %s) then config %s %s: file holds %s, expected %s" % (
+                [None, "sge", "local"][bf], [None, "debug", "error"][vf_], [None, True, False][cf], ["set", "unset"][op], k, after, model)
+        return ""
+    finally:
+        os.getcwd, cli_mod.configure_logging, cli_mod.guess_backend = real[0], real[1], real[2]
+        click._compat.isatty = real[3]
+        vfs.uninstall()
+
+
+def q20q(bf: int, vf_: int, cf: int, op: int, ki: int, pre_b: int) -> str:
+    """
+    post: _ == ""
+    """
+    return q.run(_q20q, (bf, vf_, cf, op, ki, pre_b))
+
+
+QUERIES.append(
+    {"name": "Q20q", "fn": q20q, "shards": [{"bf": 0}, {"bf": 1}, {"bf": 2}], "timeout": 900,
+     "bound": "cli.main with every combination of -b (3) / -v (3) / colour (3) flags, stored backend absent or one of two, followed by config set / unset of one of 3 keys on the Context main built: the file changes in that key only"})
